@@ -96,6 +96,35 @@ pub fn main(opts: &Opts) {
         }
         lines.push(format!("G frame {}", hex(&frame)));
         expect.push((got, true, replay.clone()));
+        // the same performative as a peer may write it (descriptor by name, trailing nulls kept, defaults written
+        // out, wider or narrower constructors): the payload still begins where the performative ends
+        if k % 2 == 0 {
+            let regs = crate::typed::registry();
+            let mut note = vec![];
+            let mut r = rng.fork();
+            let tree = crate::typed::spec_tree(&perf.tv(), &regs, Some(&mut r), &mut note);
+            let mut choices = String::new();
+            let mut modelled = true;
+            let vb = crate::specenc::ref_enc(&tree, &mut r, &mut choices, &mut modelled);
+            let zero_width = !modelled && ["!41", "!42", "!43", "!44"].iter().any(|m| choices.contains(m));
+            if !zero_width {
+                let mut vf = vec![2u8, 0, (ch >> 8) as u8, ch as u8];
+                vf.extend_from_slice(&vb);
+                vf.extend_from_slice(&tail);
+                report.evaluations += 1;
+                report.count(if is_transfer { "transfer-as-a-peer-writes-it" } else { "other-as-a-peer-writes-it" });
+                report.nontrivial_case(fnv(&hex(&vf)));
+                let got = decode_real(&vf);
+                if got != want {
+                    let key = if is_transfer { "frame-decoded-differs:transfer-variant" } else { "frame-decoded-differs:other-variant" };
+                    report.finding(Finding { kind: "violation", key: key.into(), description: format!("the frame {} (channel {}, the performative written with the choices {} and followed by {} bytes) decodes to `{}`; written was `{}`", hex(&vf), ch, note.join(","), tail.len(), got.chars().take(400).collect::<String>(), want.chars().take(400).collect::<String>()), replay: json!({"property": "C06", "module": "framebody", "frame": hex(&vf), "choices": note, "tail": hex(&tail)}) });
+                }
+                if modelled {
+                    lines.push(format!("G frame {}", hex(&vf)));
+                    expect.push((got, true, replay.clone()));
+                }
+            }
+        }
         // the same frame cut short, and with one header octet changed
         if k % 3 == 0 {
             let cut = rng.below(frame.len() as u64) as usize;
